@@ -98,6 +98,21 @@ class Normalizer(ast.NodeTransformer):
         if isinstance(node.func, ast.Name) and node.func.id == 'getattr' and len(node.args) == 2 and not node.keywords and isinstance(node.args[1], ast.Constant) \
                 and isinstance(node.args[1].value, str) and node.args[1].value.isidentifier():
             return ast.copy_location(ast.Attribute(value=node.args[0], attr=node.args[1].value, ctx=ast.Load()), node)
+        # N33: map(itemgetter(k), X) / map(lambda t: E, X) over one iterable is the generator expression (t[k] for t in X) / (E for t in X)
+        if isinstance(node.func, ast.Name) and node.func.id == 'map' and len(node.args) == 2 and not node.keywords and not isinstance(node.args[1], ast.Starred):
+            fn, it = node.args
+            ge = None
+            if isinstance(fn, ast.Call) and (ast.unparse(fn.func) in ('operator.itemgetter', 'itemgetter')) and len(fn.args) == 1 and not fn.keywords \
+                    and isinstance(fn.args[0], ast.Constant):
+                ge = ast.GeneratorExp(elt=ast.Subscript(value=ast.Name(id='item_', ctx=ast.Load()), slice=fn.args[0], ctx=ast.Load()),
+                                      generators=[ast.comprehension(target=ast.Name(id='item_', ctx=ast.Store()), iter=it, ifs=[], is_async=0)])
+            elif isinstance(fn, ast.Lambda) and len(fn.args.args) == 1 and not (fn.args.vararg or fn.args.kwarg or fn.args.kwonlyargs or fn.args.defaults or fn.args.posonlyargs) \
+                    and not any(isinstance(x, (ast.Lambda, ast.ListComp, ast.SetComp, ast.DictComp, ast.GeneratorExp, ast.NamedExpr)) for x in ast.walk(fn.body)):
+                v = fn.args.args[0].arg
+                ge = ast.GeneratorExp(elt=fn.body, generators=[ast.comprehension(target=ast.Name(id=v, ctx=ast.Store()), iter=it, ifs=[], is_async=0)])
+            if ge is not None:
+                self.counts['map_to_genexp'] = self.counts.get('map_to_genexp', 0) + 1
+                return ast.fix_missing_locations(ast.copy_location(ge, node))
         return node
 
     # N3
@@ -1041,6 +1056,75 @@ def counting_while_to_for(tree):
     return count
 
 
+def tail_iteration_to_recursion(tree):
+    """N36  def F(.., p, ..): v = p; while True: BODY; v = C      (every other way out of BODY is return / raise; BODY binds no local, never reads p,
+    has no break / continue / yield; nothing follows the loop)  ==  BODY[v := p]; return F(.., p=C, ..): the second round is the function itself
+    run with the constant - a retry loop with a one-shot flag is the retry written as a tail call."""
+    import copy
+    count = 0
+
+    def convert(fn, method):
+        nonlocal count
+        a = fn.args
+        if a.vararg or a.kwarg or a.posonlyargs or a.kwonlyargs or fn.decorator_list:
+            return
+        params = [x.arg for x in a.args]
+        if method and (not params or params[0] != 'self'):
+            return
+        if len(fn.body) != 2:
+            return
+        init, loop = fn.body
+        if not (isinstance(init, ast.Assign) and len(init.targets) == 1 and isinstance(init.targets[0], ast.Name) and isinstance(init.value, ast.Name)
+                and init.value.id in params[1 if method else 0:]):
+            return
+        v, p_ = init.targets[0].id, init.value.id
+        if v in params:
+            return
+        if not (isinstance(loop, ast.While) and isinstance(loop.test, ast.Constant) and loop.test.value is True and not loop.orelse and len(loop.body) >= 2):
+            return
+        *body, last = loop.body
+        if not (isinstance(last, ast.Assign) and len(last.targets) == 1 and isinstance(last.targets[0], ast.Name) and last.targets[0].id == v and isinstance(last.value, ast.Constant)):
+            return
+        for b in body:
+            for n in ast.walk(b):
+                if isinstance(n, (ast.Break, ast.Continue, ast.Yield, ast.YieldFrom, ast.Await, ast.FunctionDef, ast.AsyncFunctionDef, ast.Lambda, ast.ClassDef, ast.NamedExpr,
+                                  ast.ListComp, ast.SetComp, ast.DictComp, ast.GeneratorExp, ast.Global, ast.Nonlocal)):
+                    return
+                if isinstance(n, ast.Name) and isinstance(n.ctx, (ast.Store, ast.Del)):
+                    return
+                if isinstance(n, ast.Name) and n.id == p_:
+                    return
+                if isinstance(n, ast.ExceptHandler) and n.name:
+                    return
+
+        class R(ast.NodeTransformer):
+            def visit_Name(self, n):
+                if n.id == v:
+                    return ast.copy_location(ast.Name(id=p_, ctx=n.ctx), n)
+                return n
+        new_body = [R().visit(b) for b in body]
+        own = params[1:] if method else params
+        func = ast.Attribute(value=ast.Name(id='self', ctx=ast.Load()), attr=fn.name, ctx=ast.Load()) if method else ast.Name(id=fn.name, ctx=ast.Load())
+        call = ast.Call(func=func, args=[ast.Name(id=x, ctx=ast.Load()) for x in own if x != p_], keywords=[ast.keyword(arg=p_, value=copy.deepcopy(last.value))])
+        # positional arguments may only precede the keyword one: parameters after p are passed by keyword as well
+        k = own.index(p_)
+        call.args = [ast.Name(id=x, ctx=ast.Load()) for x in own[:k]]
+        call.keywords = [ast.keyword(arg=p_, value=copy.deepcopy(last.value))] + [ast.keyword(arg=x, value=ast.Name(id=x, ctx=ast.Load())) for x in own[k + 1:]]
+        ret = ast.copy_location(ast.Return(value=call), last)
+        fn.body = new_body + [ast.fix_missing_locations(ret)]
+        count += 1
+
+    for node in ast.walk(tree):
+        if isinstance(node, ast.ClassDef):
+            for m in node.body:
+                if isinstance(m, ast.FunctionDef):
+                    convert(m, True)
+    for m in getattr(tree, 'body', []):
+        if isinstance(m, ast.FunctionDef):
+            convert(m, False)
+    return count
+
+
 def merge_twin_branches(tree):
     """N30: `if c: T(A) else: T(B)` where both arms are the same single statement up to one sub-expression (the same call / assignment with
     one differing argument or value) -> `T(A if c else B)`."""
@@ -1129,6 +1213,7 @@ def normalize(tree):
     n.counts['dict_updates_merged'] = merge_dict_updates(tree)
     n.counts['loop_exit_hoisted'] = hoist_loop_exit_assignments(tree)
     n.counts['counting_while'] = counting_while_to_for(tree)
+    n.counts['tail_iteration'] = tail_iteration_to_recursion(tree)
     n.counts['twin_branches'] = merge_twin_branches(tree)
     n.counts['loop_to_comprehension'] = loops_to_comprehensions(tree)
     n.counts['enumerate_dropped'] = drop_unused_enumerate(tree)
